@@ -61,6 +61,8 @@ func main() {
 		os.Exit(cmdCheck(os.Args[2:]))
 	case "dump":
 		os.Exit(cmdDump(os.Args[2:]))
+	case "sweep":
+		os.Exit(cmdSweep(os.Args[2:]))
 	case "races":
 		L, db, err := loadAll("/repo", "/verif")
 		if err != nil {
